@@ -345,7 +345,9 @@ class BaseProject(object, metaclass=ABCMeta):
             _verif(self, "allocated")
             
             # Update state of task newly allocated workers and facilities (READY -> WORKING)
-            self.workflow.check_state(self.time, BaseTaskState.WORKING)
+            # (at a project absence step nothing starts, unless automatic tasks are performed there)
+            if working or perform_auto_task_while_absence_time:
+                self.workflow.check_state(self.time, BaseTaskState.WORKING)
             _verif(self, "working")
             self.product.check_state()  # product should be checked after checking workflow state
             _verif(self, "comp3")
